@@ -425,10 +425,16 @@ def run(ch, tr, st):
             sched.shutdown()
     finally:
         srs_mod.mp, fdepsd_mod.mp = real
-    # harness self-check: parent's view of the worker globals is untouched
+    # The parent's own view of the worker globals normally stays as it was (the workers'
+    # assignments live in their images; tests/test_simmp.py checks that isolation).  It is
+    # NOT an error if it changed: code under test may legitimately run the initializer in
+    # the calling process (e.g. a one-worker short-cut) - that was once reported as a
+    # harness error ("leaked out of a simulated worker") and hid real violations behind
+    # exit 2 (seeded change C09-f1).  Counted only.
     for (mn, k), v in before.items():
         if vars(sys.modules[mn]).get(k) is not v:
-            raise HarnessError(f"module global {mn}.{k} leaked out of a simulated worker")
+            st.probe("parent_module_state_changed")
+            break
     st.steps = sched.decisions
     st.probe("line_events", sched.line_events)
     st.distinct["schedule_digests"] = tr.shape_digest()
